@@ -43,11 +43,7 @@ theorem step_all (slack : Nat → Nat) (s : Pkg) (tabs : List Table) (hF : Full 
       · exact absurd hw (ha w)
       · show ∃ tabs', Full slack (createTable s n c).1 tabs' ∧ NoOrphans (createTable s n c).1 ∧
           ValidAll (createTable s n c).1
-        rcases hst with hst | hst
-        · rw [hst]; exact ⟨tabs, hF, hN, hV⟩
-        · rw [hst]
-          exact ⟨tabs, ⟨core_setFinisher slack s tabs true hF.core, hF.hasVal⟩, noOrphans_setFinisher s true hN,
-            valid_setFinisher s true hV⟩
+        rw [hst]; exact ⟨tabs, hF, hN, hV⟩
   | dml op => exact old ha
   | drop n =>
     -- refused by the checks on the name, or accepted: `drop_table` cannot fail midway
@@ -102,14 +98,13 @@ theorem created_reopens_all (ptype : Nat) (summary : PropSet) (s0 : Pkg)
 
 /-- **a rejected `create_table` changes nothing observable** (property C04, including the failures
 discovered late): in every state with the invariants, a `create_table` call that returns an error
-leaves the table list, every table's rows, the container and the summary as they were -/
+leaves the package exactly as it was: table list, rows, container, summary, even the pending flags -/
 theorem createTable_rejected_view (slack : Nat → Nat) (s : Pkg) (tabs : List Table) (hF : Full slack s tabs)
     (hN : NoOrphans s) (hV : ValidAll s) (name : List Char) (cols : List Column) (k : ErrKind)
     (h : (createTable s name cols).2 = .err k) :
-    (createTable s name cols).1 = s ∨ (createTable s name cols).1 = { s with finisher := true } := by
+    (createTable s name cols).1 = s := by
   cases hce : createError s name cols with
   | some k' =>
-    left
     unfold createTable; rw [hce]
   | none =>
     rcases createTable_atomic slack s tabs hF hN hV name cols hce with hok | ⟨w, hw⟩ | ⟨-, hst⟩
